@@ -131,6 +131,22 @@ fn dump_ops() {
     }
 }
 
+unsafe extern "C" {
+    fn dlsym(handle: *mut core::ffi::c_void, symbol: *const core::ffi::c_char) -> *mut core::ffi::c_void;
+}
+
+/// Rewind the shim's random stream (no-op when the shim is not preloaded): the keys a program's
+/// compilations see then depend on (VERIF_HASH_SEED, program) only, not on the batch position.
+fn shim_reset() {
+    unsafe {
+        let p = dlsym(core::ptr::null_mut(), c"verif_shim_reset".as_ptr());
+        if !p.is_null() {
+            let f: extern "C" fn() = core::mem::transmute(p);
+            f();
+        }
+    }
+}
+
 fn main() {
     let args: Vec<String> = std::env::args().skip(1).collect();
     if args.first().map(|s| s.as_str()) == Some("--ops") {
@@ -166,6 +182,7 @@ fn main() {
     for rec in text.split("@@@PROGRAM ").skip(1) {
         let (id, prog) = rec.split_once('\n').unwrap_or((rec, ""));
         let id = id.trim();
+        shim_reset();
         let first = compile_on_fresh_thread(prog, full);
         pipeline_runs += 1;
         let mut inproc = "ok".to_string();
